@@ -71,4 +71,60 @@ CHECKS = {
         'level': 'Sampled search with the real SQLite engine as reference and an exact structural edit-distance check.',
         'note': 'Trusts sqlite3, the own printer vf/oracles/refprint.py and the generator\'s typing discipline.',
     },
+    'C03': {
+        'technique': 'bounded-exhaustive enumeration + property-based testing against a reference model and a '
+                     'differential engine: all operator trees with <= 3 operators (4 in thorough) over the listed '
+                     'precedence classes printed with minimal parentheses x 3 dialects x 9 expression contexts, random '
+                     'deeper trees; oracle (a) parsed shape == generating tree, (b) sqlite3 value of the text == value '
+                     'of the parsed tree printed fully parenthesised',
+        'level': 'Exhaustive up to 3 operators per class representative in every context (thorough), sampled beyond; '
+                 'the precedence model itself is validated against SQLite on every case.',
+        'note': 'Trusts sqlite3 as the reference for SQL precedence and vf/oracles/optree.py (model, printers).',
+    },
+    'C08': {
+        'technique': 'property-based differential execution with a reference plan interpreter: multi-integration '
+                     'queries from the typed SQL model x table contents x catalog shapes; emitted plan steps carried out '
+                     'by their documented meaning on sqlite3 vs the original query on one engine holding all tables; on '
+                     'a mismatch the plan is re-interpreted with push-down mechanisms neutralised to attribute it',
+        'level': 'Sampled search; multiset / order-aware comparison, validity predicate under LIMIT without total order. '
+                 'Known push-down defects are matched by mechanism (semi-join filter under RIGHT/FULL join, atoms pushed '
+                 'irrespective of boolean context, ...) so other mismatches stay violations.',
+        'note': 'Step semantics are my reading of planner/steps.py docstrings; the real executor is in another '
+                'repository. Plans the interpreter cannot give a meaning are counted as not judged, never as violations.',
+    },
+    'C13': {
+        'technique': 'property-based testing against a reference model: trees from the corpus, tame grammar derivations '
+                     'and a targeted shape generator; oracle = independent reflection-based reference walk in textual '
+                     'order (visited exactly once, order, is_table / is_target flags) and exhaustive single-node '
+                     'replacement compared with an independently built clone',
+        'level': 'Sampled over trees, exhaustive over replacement positions within each tree (cap 48).',
+        'note': 'Trusts vf/oracles/walk.py (per node class the child fields in textual order).',
+    },
+    'C17': {
+        'technique': 'property-based contract testing: parser-produced trees (corpus, targeted unsupported shapes, '
+                     'fragment x frame products, tame derivations, mutations) x 7 dialect names x {get_string, '
+                     'get_exec_params} x fallback on/off; oracle = exception class contract, fallback output identity, '
+                     'structural snapshot of the tree unchanged',
+        'level': 'Sampled + a fixed product of 60 expression fragments x 47 clause frames and 30 table fragments x 26 '
+                 'table positions; exact contract oracle.',
+        'note': 'The no-fallback result is taken as "the rendering"; its meaning is C06/C07\'s subject.',
+    },
+    'C18': {
+        'technique': 'property-based testing of algebraic laws with drawn mutation histories: copy()/deepcopy of '
+                     'parser-produced trees and of plans, identity-graph disjointness, original unchanged after every '
+                     'single-attribute mutation of the copy; reflexivity / symmetry / print-consistency of ==, plan and '
+                     'step equality, Result hashing',
+        'level': 'Sampled trees, plans and mutation sequences (<= 10 steps); exact oracle.',
+        'note': 'Structural image by reflection (vf/oracles/struct.py) is the notion of "unchanged".',
+    },
+    'C19': {
+        'technique': 'property-based metamorphic testing: rejected texts from token mutations, truncations, layouts '
+                     'with comments / blank lines / CRLF and illegal characters; location oracle = first token whose '
+                     'prefix the parser cannot extend (prefix parsing, cross-checked by the Earley recogniser) mapped to '
+                     'source coordinates by an own layout model; suggestion oracle = re-parse with the suggestion '
+                     'inserted + Earley expected-terminal set',
+        'level': 'Sampled + every token-boundary truncation of corpus statements; exact oracle for caret position, '
+                 'soundness only for suggestions.',
+        'note': 'Relies on the LR correct-prefix property (bisection over prefixes) and the Earley recogniser.',
+    },
 }
